@@ -23,7 +23,9 @@ from .. import core, findlib as fl, gen_replace_c04 as g
 RULE = ("periodic structures from findlib.planted_structure (1-5 planted copies of 11 patterns of 1-5 atoms, any pose, "
         "origins random / hugging faces / corners, orthorhombic / triclinic +- tilt / rotated cells, decoys), 40 % of them "
         "given with partly UNWRAPPED coordinates (noble-gas bystanders and atoms of planted copies lying up to 0.4 A - and "
-        "less than 0.8 search lengths - outside the cell), unique charges, "
+        "less than 0.8 search lengths - outside the cell; half of those also with whole copies given one lattice vector "
+        "outside and bystanders up to 1.6 cell widths outside), a few atom-less structures (cell only), 15 % of the pattern "
+        "pairs carrying a cell of their own, 25 % of the calls with numpy-typed scalars (np.float64 / np.int64 / np.bool_), unique charges, "
         "random groups, type labels = or != element names; replacement EMPTY (plain Atoms(), the search pattern with every atom deleted, zero atoms + type tables, + coefficient "
         "tables) / smaller / equal / larger, with / without "
         "atoms shared with the search pattern (same element + same coordinates; non-shared atoms differ in element or by "
@@ -347,6 +349,14 @@ def find_keys(inp):
     return sorted(sorted(int(i) for i in t) for t in res["ok"])
 
 
+def np_typed(inp):
+    """the same arguments spelled with numpy scalar types (np.float64 fraction / tolerance, np.int64 hints, np.bool_ flags)"""
+    import numpy as np
+    h = tuple(None if x is None else np.int64(x) for x in (inp.get("hints") or (None, None, None)))
+    return dict(atol=np.float64(inp["atol"]), fraction=np.float64(inp["f"]), replace_all=np.bool_(inp["replace_all"]),
+                ignore=np.bool_(inp.get("ignore", False)), hints=h)
+
+
 def real(inp):
     out = _real(inp)
     if inp.get("expect") or inp.get("check_find"):
@@ -355,6 +365,11 @@ def real(inp):
 
 
 def _real(inp):
+    if inp.get("np_args"):
+        a = np_typed(inp)
+        return run_replace_kw(inp["sj"], inp["pj"], inp["rj"], atol=a["atol"], fraction=a["fraction"], replace_all=a["replace_all"],
+                              ignore=a["ignore"], hints=a["hints"], seed=inp["seed"], return_num=inp.get("return_num", True),
+                              rj_src=inp.get("rj_src"), via_copy=bool(inp.get("via_copy")))
     return run_replace_kw(inp["sj"], inp["pj"], inp["rj"], atol=inp["atol"], fraction=inp["f"], replace_all=inp["replace_all"],
                           ignore=inp.get("ignore", False), hints=tuple(inp.get("hints") or (None, None, None)), seed=inp["seed"],
                           return_num=inp.get("return_num", True), rj_src=inp.get("rj_src"), via_copy=bool(inp.get("via_copy")))
@@ -379,7 +394,8 @@ def tags_of(inp, out):
          "hints:%s" % "".join("-" if h is None else "x" for h in (inp.get("hints") or [None] * 3)),
          "return_num_matches:%s" % inp.get("return_num", True), "spare-types:%s" % bool(i.get("spare_types")),
          "empty-kind:%s" % i.get("empty_kind", "-"), "extra-columns:%s" % (i.get("extras") or "none"),
-         "inputs-are-copies:%s" % bool(inp.get("via_copy")),
+         "inputs-are-copies:%s" % bool(inp.get("via_copy")), "numpy-typed-args:%s" % bool(inp.get("np_args")),
+         "patterns-with-cell:%s" % bool(i.get("pattern_cells")), "atomless-structure:%s" % bool(i.get("atomless")),
          "distorted-copies:%s" % (i["distorted"]["regime"] if i.get("distorted") else "no"), "step:%s" % (i.get("step", "single") if i.get("step") != 1 else "1:" + i.get("step1kind", "?"))]
     if i.get("step") == 2:
         t.append("step2-after:" + str(i.get("step1")))
@@ -455,6 +471,7 @@ def run(ctx, oracle_only=False, scale=1):
     # ordinary replacement on the RESULT of step 1, judged by the full oracle relative to its own input
     firsts = [g.first_step(rng) for _ in range(ctx.n(90, 700) * scale)]
     seeds2 = [rng.randrange(1 << 30) for _ in firsts]
+    inps += [g.atomless_case(rng) for _ in range(ctx.n(4, 30))]
     # non-default tolerances with copies distorted between 0.05 and atol (resp. between atol and 0.05)
     inps += [g.distorted_case(rng) for _ in range(ctx.n(160, 1200) * scale)]
     pre = []
